@@ -97,15 +97,59 @@ def known_f7(ctx, text, case):
         return text
 
 
-def replay_behaviour(ctx, XmlWrite, hist, rng, flavour):
+class Background:
+    """a second document being written while the one under test is (a report and its index, two plots): one call on it between any
+    two calls on the other; it must come out as it does alone"""
+    SCRIPT = [('start', 'r', {}), ('start', 'x', {'k': 'v<&"'}), ('chars', 't<&>'), ('end', 'x'), ('comment', 'c'), ('start', 'y', {}), ('chars', 'deep'),
+              ('start', 'z', {}), ('end', 'z'), ('end', 'y'), ('chars', 'tail'), ('start', 'w', {'a': '1'}), ('end', 'w')]
+
+    def __init__(self, XmlWrite, xhtml):
+        self.f = io.StringIO()
+        self.xs = (XmlWrite.XhtmlStream if xhtml else XmlWrite.XmlStream)(self.f)
+        self.xs.__enter__()
+        self.n, self.open = 0, []
+
+    def step(self):
+        if self.n >= len(self.SCRIPT):
+            return                                        # the script is over: the document waits to be closed
+        op = self.SCRIPT[self.n]
+        self.n += 1
+        if op[0] == 'start':
+            self.xs.startElement(op[1], op[2])
+            self.open.append(op[1])
+        elif op[0] == 'end':
+            self.xs.endElement(self.open.pop())
+        elif op[0] == 'chars':
+            self.xs.characters(op[1])
+        else:
+            self.xs.comment(op[1])
+
+    def finish(self):
+        while self.open:
+            self.xs.endElement(self.open.pop())
+        self.xs.__exit__(None, None, None)
+        return self.f.getvalue()
+
+    @classmethod
+    def alone(cls, XmlWrite, xhtml, nsteps):
+        b = cls(XmlWrite, xhtml)
+        for _ in range(nsteps):
+            b.step()
+        return b.finish()
+
+
+def replay_behaviour(ctx, XmlWrite, hist, rng, flavour, background=False):
     """Replay one spec behaviour (list of calls with class strings) on the real class."""
     f = io.StringIO()
     cls = XmlWrite.XhtmlStream if flavour == 'xhtml' else XmlWrite.XmlStream
     expected = []
     raised_mismatch = None
     stack = []
+    bg = Background(XmlWrite, flavour != 'xhtml') if background else None
     with cls(f) as xs:
         for c in hist:
+            if bg is not None:
+                bg.step()
             op = c['op']
             if op == 'start':
                 v = concrete(c['v'], rng)
@@ -169,6 +213,11 @@ def replay_behaviour(ctx, XmlWrite, hist, rng, flavour):
             top = stack.pop()
             expected.append(('end', top._name if flavour == 'element' else top))
     text = f.getvalue()
+    if bg is not None:
+        got_bg, n_bg = bg.finish(), bg.n
+        want_bg = Background.alone(XmlWrite, flavour != 'xhtml', n_bg)
+        if got_bg != want_bg and raised_mismatch is None:
+            raised_mismatch = 'a second document written alternately with this one differs from the same calls alone: %r vs %r' % (got_bg[-120:], want_bg[-120:])
     if flavour == 'xhtml':
         expected = [('start', 'html', {'xmlns': 'http://www.w3.org/1999/xhtml', 'xml:lang': 'en', 'lang': 'en'})] + expected + [('end', 'html')]
     return text, expected, raised_mismatch
@@ -513,7 +562,7 @@ def run(ctx):
         hist = [dict(h) for h in st['hist']]
         flavour = flavours[nb % 3]
         try:
-            text, expected, mism = replay_behaviour(ctx, XmlWrite, hist, rng, flavour)
+            text, expected, mism = replay_behaviour(ctx, XmlWrite, hist, rng, flavour, background=(nb % 4 == 1))
         except Exception as e:
             ctx.fail('XmlStream raised %s: %s replaying the calls %s' % (type(e).__name__, e, json.dumps(hist)),
                      dict(hist=hist, flavour=flavour), sig=dict(kind='replay-exception'))
